@@ -75,13 +75,13 @@ def rand_default_shifts(rng, axes):
     return {"k": "m", "v": pairs} if pairs else NONE
 
 
-def sprinkle_specials(rng, data):
+def sprinkle_specials(rng, data, nan=True):
     """a few cells holding NaN or an infinity (records: NAN_INT, +/- INF_INT)"""
     from .model import INF_INT, NAN_INT
 
     flat = data["flat"]
     for _ in range(rng.randint(1, max(1, len(flat) // 5)) if flat else 0):
-        flat[rng.randrange(len(flat))] = rng.choice([NAN_INT, INF_INT, -INF_INT, INF_INT])
+        flat[rng.randrange(len(flat))] = rng.choice(([NAN_INT] if nan else []) + [INF_INT, -INF_INT, INF_INT])
     return data
 
 
